@@ -56,6 +56,23 @@ func defC01(mode int) *ph.Def {
 	}}
 }
 
+// defC01flags: flags whose one-letter names are multibyte and share their first byte (a byte-wise split of a bundle makes
+// them ambiguous), and an increment option bound to an environment variable that is set (GetEnv does not apply to
+// increment options: the option still reads default plus occurrences).
+func defC01flags(mode int) *ph.Def {
+	return &ph.Def{Mode: mode, Unknown: 2, Root: ph.CmdDef{Name: "prog",
+		Opts: []ph.OptDef{
+			{Name: "ä", Kind: ph.Bool},
+			{Name: "ö", Kind: ph.Incr, DefI: 1},
+			{Name: "ü", Kind: ph.Bool, DefB: true},
+			{Name: "einc", Kind: ph.Incr, DefI: 1, Env: "C01_EINC"},
+		},
+		Cmds: []*ph.CmdDef{{Name: "c"}},
+	}}
+}
+
+var c01FlagsEnv = map[string]string{"C01_EINC": "5"}
+
 var c01Opts = []string{"str", "int", "flt", "ostr", "oint", "oflt"}
 var c01Abbrev = map[string]string{"str": "st", "int": "int", "flt": "fl", "ostr": "os", "oint": "oin", "oflt": "of"}
 
@@ -108,7 +125,7 @@ func init() {
 		QuickSecs: 300, ThoroSecs: 1500,
 		Rule: "input-space exploration: value texts = all strings of length <= Lv over 13 characters {a - = space newline 1 . e + _ x é 0xFF} plus 74 numeric boundary / malformed numerals and special tokens (mixed-case texts with `=` under SetMapKeysToLower among them); " +
 			"each x 6 scalar option kinds (string, int, float64 and their optional-value forms, half declared through *Var) x 3 spellings (--name=v, --name v, unique abbreviation) x 8 contexts (alone, after/before a positional, before a flag, inside a command, second occurrence, before a wrapper command with same-named options of its own, behind the help option) x 3 modes; " +
-			"plus every argv of length <= 4 over flag / optional-value tokens; values, Called, CalledAs, error and remaining compared with the reference model (strconv.Atoi / ParseFloat define validity); " +
+			"plus every argv of length <= 4 over flag / optional-value tokens, and over bundles of multibyte flag letters that share their first byte and an increment option bound to a set environment variable; values, Called, CalledAs, error and remaining compared with the reference model (strconv.Atoi / ParseFloat define validity); " +
 			"distinct_nontrivial = distinct cases inside the specified territory",
 		Assume: []string{"value texts longer than Lv over other characters are represented by the fixed list only", "unspecified zones (empty attached value, `-=`-style tokens) are executed but not compared"},
 		Run: func(c *RunCtx) {
@@ -124,14 +141,38 @@ func init() {
 			flagAlpha := []string{"--b", "--nb", "--inc", "-b", "--ostr", "--oint", "--oflt", "pos", "--in"}
 			flagDefs := []*ph.Def{defC01(0), defC01(1), defC01(2)}
 			flagUnits := len(flagDefs) * len(flagAlpha)
+			flag2Alpha := []string{"-ä", "-ö", "-ü", "-äö", "-öö", "--ö", "--einc", "--ein", "c", "pos"}
+			flag2Units := 3 * len(flag2Alpha)
 			for {
 				u := c.claim()
-				if u >= units+flagUnits {
+				if u >= units+flagUnits+flag2Units {
 					break
 				}
 				if c.expired() {
 					res.Capped = true
 					break
+				}
+				if u >= units+flagUnits {
+					// part 3: multibyte flags, increment option with an environment variable
+					fu := u - units - flagUnits
+					def := defC01flags(fu / len(flag2Alpha))
+					argv := []string{flag2Alpha[fu%len(flag2Alpha)]}
+					var rec func()
+					rec = func() {
+						res.States++
+						res.Transitions++
+						c01One(c, def, argv, "flags", c01FlagsEnv)
+						if len(argv) == 4 || len(res.Violations) >= 3 {
+							return
+						}
+						for _, t := range flag2Alpha {
+							argv = append(argv, t)
+							rec()
+							argv = argv[:len(argv)-1]
+						}
+					}
+					rec()
+					continue
 				}
 				if u >= units {
 					// part 2: flags and optional-value options without a value
@@ -143,7 +184,7 @@ func init() {
 					rec = func() {
 						res.States++
 						res.Transitions++
-						c01One(c, def, argv, "flags")
+						c01One(c, def, argv, "flags", nil)
 						if len(argv) == 4 || len(res.Violations) >= 3 {
 							return
 						}
@@ -165,7 +206,7 @@ func init() {
 					argv := c01Context(ctx, c01Spell(spell, opt, v), opt)
 					res.States++
 					res.Transitions += int64(len(argv))
-					c01One(c, def, argv, "values")
+					c01One(c, def, argv, "values", nil)
 					if len(res.Violations) >= 3 || (res.States&1023 == 0 && c.stopped()) {
 						break
 					}
@@ -178,9 +219,9 @@ func init() {
 	})
 }
 
-func c01One(c *RunCtx, def *ph.Def, argv []string, part string) {
+func c01One(c *RunCtx, def *ph.Def, argv []string, part string, env map[string]string) {
 	res := c.Res
-	pc := &parserCase{Check: "C01", Def: def, Argv: argv}
+	pc := &parserCase{Check: "C01", Def: def, Env: env, Argv: argv}
 	res.Evaluations++
 	res.Traces++
 	msgs, info := judgeSpec(pc, c01Facets, false)
@@ -204,7 +245,7 @@ func c01One(c *RunCtx, def *ph.Def, argv []string, part string) {
 		}
 	}
 	if len(msgs) > 0 {
-		res.violate(Violation{Prop: "C01", Msg: fmt.Sprintf("%s  [%s argv=%q]", msgs[0], def.ConfigString(), argv), Case: newCase("C01", def, nil, argv, false), Weight: len(argv)*100 + len(fmt.Sprint(argv)), Known: knownSig("C01", msgs[0], pc), Test: goTest(def, nil, argv, msgs[0])})
+		res.violate(Violation{Prop: "C01", Msg: fmt.Sprintf("%s  [%s argv=%q]", msgs[0], def.ConfigString(), argv), Case: newCase("C01", def, env, argv, false), Weight: len(argv)*100 + len(fmt.Sprint(argv)), Known: knownSig("C01", msgs[0], pc), Test: goTest(def, env, argv, msgs[0])})
 	}
 	if res.Evaluations%40000 == 1 {
 		res.sample(map[string]any{"config": def.ConfigString(), "argv": append([]string{}, argv...), "in_domain": info.inDomain})
